@@ -26,9 +26,9 @@ void harness(void) {
 	g_in = nondet_ull(); g_out = nondet_ull(); g_pending = 0; g_peer_closed = 0; g_sock_closed = 0; g_tcp_env_failed = 0; g_recv_calls = 0;
 	__CPROVER_assume(tcp.inLen <= sizeof(tcp.inBuf) && g_in == g_out + tcp.inLen && g_in < 0x7fffffffffff0000ULL);
 	g_revents = (short)nondet_int(); g_now = nondet_ll();
-	g_q_len = nondet_size(); __CPROVER_assume(g_q_len <= 2); g_req_raw_p = malloc(1); __CPROVER_assume(g_req_raw_p != NULL);
+	g_q_len = nondet_size(); __CPROVER_assume(g_q_len <= 2); g_req_raw_p = malloc(GHOST_TCP_MAX_REQ); __CPROVER_assume(g_req_raw_p != NULL);
 	g_req.state = nondet_int(); g_req.len = nondet_size(); g_req.sentCount = nondet_size(); g_req.raw = g_req_raw_p; g_req.reqTime = nondet_ll();
-	__CPROVER_assume(g_req.sentCount <= g_req.len);
+	__CPROVER_assume(g_req.sentCount <= g_req.len && g_req.len <= GHOST_TCP_MAX_REQ);
 	g_req_len0 = g_req.len;
 	res = dispatch(&tcp);
 	__CPROVER_assert(tcp.inLen <= sizeof(tcp.inBuf), "buffer fill level inside the buffer");
